@@ -10,6 +10,10 @@ package main
 //
 // case line:   h <tx>;<tx>;…      tx = <op>,<op>,…      (one Db.Update per tx, first error aborts it)
 //              g <tx>;<tx>;…      the same with A2's strategy registered before A1's
+//
+// every kind token may carry the shape of the layering, <kind>~<p1>~<p2>~<base>: the BasePath (data
+// sub-path inside the parent's entity bucket, one or more segments separated by '.') of A1 and of A2 and
+// the base path of the parent store; default ext1, ext2, u
 //              k <tx>;<tx>;… <item>;<item>;…   the same, then cursor scripts / provider queries (c15_cursor.go)
 //
 //	c/<s>/<id>/<name>/<roles>/<child>         Create through store s (0 = A, 1 = A1, 2 = A2)
@@ -27,6 +31,7 @@ package main
 
 import (
 	"bufio"
+	"bytes"
 	"context"
 	"errors"
 	"fmt"
@@ -182,18 +187,42 @@ func c15ParentMapper(entity boltz.Entity) boltz.Entity {
 
 // the stores are declared the way boltz/manager_store_test.go declares a child store;
 // a2First: register the extended child store's strategy before the plain child store's
-func c15NewStores(a2First bool) *c15Stores {
+type c15Shape struct{ p1, p2, base []string }
+
+var c15DefaultShape = c15Shape{p1: []string{"ext1"}, p2: []string{"ext2"}, base: []string{"u"}}
+
+// kind token -> kind letter, shape
+func c15ParseKind(tok string) (string, c15Shape, bool) {
+	f := strings.Split(tok, "~")
+	if len(f) == 1 {
+		return f[0], c15DefaultShape, true
+	}
+	if len(f) != 4 {
+		return "", c15Shape{}, false
+	}
+	sh := c15Shape{p1: strings.Split(f[1], "."), p2: strings.Split(f[2], "."), base: strings.Split(f[3], ".")}
+	return f[0], sh, true
+}
+
+func (sh c15Shape) token(kind string) string {
+	if strings.Join(sh.p1, ".") == "ext1" && strings.Join(sh.p2, ".") == "ext2" && strings.Join(sh.base, ".") == "u" {
+		return kind
+	}
+	return kind + "~" + strings.Join(sh.p1, ".") + "~" + strings.Join(sh.p2, ".") + "~" + strings.Join(sh.base, ".")
+}
+
+func c15NewStores(a2First bool, sh c15Shape) *c15Stores {
 	s := &c15Stores{}
 	s.a = boltz.NewBaseStore(boltz.StoreDefinition[*c15Thing]{
 		EntityType:      "things",
 		EntityStrategy:  c15ThingStrategy{},
-		BasePath:        []string{"u"},
+		BasePath:        sh.base,
 		EntityNotFoundF: c15NotFound,
 	})
 	s.a.InitImpl(s.a)
 	s.a1 = boltz.NewBaseStore(boltz.StoreDefinition[*c15Ext1]{
 		EntityStrategy:  &c15Ext1Strategy{parent: s.a},
-		BasePath:        []string{"ext1"},
+		BasePath:        sh.p1,
 		Parent:          s.a,
 		ParentMapper:    c15ParentMapper,
 		EntityNotFoundF: c15NotFound,
@@ -201,7 +230,7 @@ func c15NewStores(a2First bool) *c15Stores {
 	s.a1.InitImpl(s.a1)
 	s.a2 = boltz.NewBaseStore(boltz.StoreDefinition[*c15Ext2]{
 		EntityStrategy:  &c15Ext2Strategy{parent: s.a},
-		BasePath:        []string{"ext2"},
+		BasePath:        sh.p2,
 		Parent:          s.a,
 		ParentMapper:    c15ParentMapper,
 		EntityNotFoundF: c15NotFound,
@@ -593,7 +622,11 @@ func c15Dump(tx *bbolt.Tx) string {
 
 func c15Exec(line string) string {
 	f := fields(line)
-	if !(len(f) == 2 && (f[0] == "h" || f[0] == "g")) && !(len(f) == 3 && f[0] == "k") {
+	if len(f) < 2 {
+		return "bad-case"
+	}
+	kind, shape, ok := c15ParseKind(f[0])
+	if !ok || (!(len(f) == 2 && (kind == "h" || kind == "g")) && !(len(f) == 3 && kind == "k")) {
 		return "bad-case"
 	}
 	// boltz.Open offers no NoSync option: one fsync per transaction; a memory-backed directory, where
@@ -606,16 +639,16 @@ func c15Exec(line string) string {
 		panic(err)
 	}
 	defer os.RemoveAll(dir)
-	db, err := boltz.Open(filepath.Join(dir, "c15.db"), "u")
+	db, err := boltz.Open(filepath.Join(dir, "c15.db"), shape.base[0])
 	if err != nil {
 		panic(err)
 	}
 	defer func() { _ = db.Close() }()
 
-	s := c15NewStores(f[0] == "g") // g: the extended child store registered before the plain one
+	s := c15NewStores(kind == "g", shape) // g: the extended child store registered before the plain one
 	err = db.Update(nil, func(ctx boltz.MutateContext) error {
 		// the entities bucket exists from the start, as after any first create
-		if b := boltz.GetOrCreatePath(ctx.Tx(), "u", "things"); b.HasError() {
+		if b := boltz.GetOrCreatePath(ctx.Tx(), append(append([]string{}, shape.base...), "things")...); b.HasError() {
 			return b.GetError()
 		}
 		holder := &c15ErrHolder{}
@@ -663,7 +696,7 @@ func c15Exec(line string) string {
 		})
 		segs = append(segs, seg)
 	}
-	if f[0] == "k" { // cursor scripts and provider queries over the final state (c15_cursor.go)
+	if kind == "k" { // cursor scripts and provider queries over the final state (c15_cursor.go)
 		_ = db.View(func(tx *bbolt.Tx) error {
 			segs = append(segs, s.runItems(tx, f[2]))
 			return nil
@@ -917,7 +950,44 @@ func c15GenHist(r *rng, ntx int, allowFinding bool) string {
 	return "h " + strings.Join(txs, ";")
 }
 
+// well-formed shapes of the layering (child paths non-empty, neither a prefix of the other, no first
+// segment equal to a key of the parent strategy): child data paths of 1, 2 and 3 segments, shared
+// prefixes, parent base paths of 1, 2 and 3 segments, segments named like the children's own field keys
+var c15Shapes = []c15Shape{
+	c15DefaultShape,
+	{p1: []string{"ext", "mgr"}, p2: []string{"ext2"}, base: []string{"u"}},
+	{p1: []string{"ext1"}, p2: []string{"ext", "tl"}, base: []string{"u"}},
+	{p1: []string{"ext", "a"}, p2: []string{"ext", "b"}, base: []string{"u"}},
+	{p1: []string{"x", "y", "a"}, p2: []string{"x", "y", "b"}, base: []string{"u", "v"}},
+	{p1: []string{"x", "a", "c"}, p2: []string{"x", "b"}, base: []string{"u"}},
+	{p1: []string{"d1", "d2", "d3"}, p2: []string{"e1"}, base: []string{"u", "v", "w"}},
+	{p1: []string{"code"}, p2: []string{"colour"}, base: []string{"u"}},
+	{p1: []string{"ext", "code"}, p2: []string{"ext", "colour", "z"}, base: []string{"u", "v"}},
+}
+
+// the cases of c15GenCases, each with a shape drawn for it: the first 4 * len(c15Shapes) cycle through the
+// pool, then half keep the default shape and half take a random one
 func c15Gen(tier string, seed uint64, out *bufio.Writer) {
+	var buf bytes.Buffer
+	w := bufio.NewWriter(&buf)
+	c15GenCases(tier, seed, w)
+	_ = w.Flush()
+	r := newRng(seed ^ 0x5ca1ab1e)
+	for i, line := range strings.Split(strings.TrimRight(buf.String(), "\n"), "\n") {
+		if line == "" {
+			continue
+		}
+		sh := c15DefaultShape
+		if i < 4*len(c15Shapes) {
+			sh = c15Shapes[i%len(c15Shapes)]
+		} else if r.chance(1, 2) {
+			sh = pick(r, c15Shapes)
+		}
+		fmt.Fprintln(out, sh.token(line[:1])+line[1:])
+	}
+}
+
+func c15GenCases(tier string, seed uint64, out *bufio.Writer) {
 	// newRng's states for consecutive seeds are one step apart on the same splitmix sequence
 	// (the streams are shifted copies of each other); jump to an unrelated state instead
 	r := newRng(seed)
